@@ -446,6 +446,56 @@ func longHistory(seed int64, n int) rec {
 		"expired": true, "exited": left == 0, "dbg": fmt.Sprintf("long history: %d query events, %d nil callbacks, %d listener goroutines left", n, nils, left)}
 }
 
+// reuseHistory: a query event expires; a request for it arrives late (routed before the server processed
+// the unsubscribe); later query events - on the same and on another resource - must not see that request,
+// and nobody answers it.
+func reuseHistory(seed int64) rec {
+	rng := rand.New(rand.NewSource(seed))
+	w := newWorld(seed, false, 3*time.Millisecond, false)
+	defer w.close()
+	if !w.startQuery() {
+		return nil
+	}
+	var oldSub *rconn.Sub
+	for _, sb := range w.conn.Subs() {
+		if sb.Subject == w.obs.subject {
+			oldSub = sb
+		}
+	}
+	oldSubject := w.obs.subject
+	w.beh["a1"] = ""
+	w.sendReq("a1")
+	time.Sleep(3*time.Millisecond + 25*time.Millisecond) // expired, listener gone
+	nlate := 1 + rng.Intn(3)
+	var late []string
+	if oldSub != nil {
+		for i := 0; i < nlate; i++ {
+			id := fmt.Sprintf("late%d", i+1)
+			late = append(late, id)
+			w.beh[id] = "events"
+			w.conn.DeliverTo(oldSub, oldSubject, "inbox."+id, []byte(`{"query":"id=`+id+`"}`))
+		}
+	}
+	// the next query events start with fresh observations
+	var sent []string
+	w.obs = &qeObs{}
+	for k := 0; k < 1+rng.Intn(3); k++ {
+		if !w.startQuery() {
+			return nil
+		}
+		id := fmt.Sprintf("b%d", k+1)
+		w.beh[id] = behaviours[rng.Intn(len(behaviours))]
+		sent = append(sent, id)
+		w.sendReq(id)
+		time.Sleep(time.Duration(rng.Intn(1500)) * time.Microsecond)
+	}
+	time.Sleep(3*time.Millisecond + 30*time.Millisecond)
+	r := w.record(append(append([]string{}, sent...), late...), false, true, fmt.Sprintf("reuse history seed %d: %d late request(s) on the subject of an expired query event, then %d new query event(s)", seed, len(late), len(sent)))
+	r["sent"] = sent
+	r["judge"] = "foreign"
+	return r
+}
+
 // Run executes the C15 check.
 func Run(c *core.Ctx) {
 	c.SetLevel("model_checking")
@@ -496,6 +546,11 @@ func Run(c *core.Ctx) {
 			recs = append(recs, rr)
 		}
 	}
+	for i := 0; i < c.Pick(6, 60); i++ {
+		if rr := reuseHistory(c.Seed*53 + int64(i)); rr != nil {
+			recs = append(recs, rr)
+		}
+	}
 	for i := 0; i < c.Pick(3, 20); i++ {
 		if rr := groupHistory(c.Seed + int64(i)); rr != nil {
 			recs = append(recs, rr)
@@ -516,7 +571,14 @@ func Run(c *core.Ctx) {
 		var recs2 []interface{}
 		var which []string
 		for _, i := range bad {
-			for _, cl := range clauses {
+			for _, cl := range append(clauses, "foreign") {
+				// a record judged for one clause only (released / foreign) is re-judged for that clause
+				if j := fmt.Sprint(recs[i].(rec)["judge"]); j != "all" && j != cl {
+					continue
+				}
+				if _, has := recs[i].(rec)["sent"]; !has && cl == "foreign" {
+					continue
+				}
 				r2 := rec{}
 				for k, v := range recs[i].(rec) {
 					r2[k] = v
